@@ -271,3 +271,34 @@ func existsPredicate(p *Prog, f *ssa.Function, reg *ssa.Global) bool {
 	}
 	return true
 }
+
+// paramActuals: the actual arguments passed for parameter pa of an unexported, only statically called package
+// function (nil when the function may be called in a way we do not see: exported, address taken, no caller).
+func paramActuals(p *Prog, pa *ssa.Parameter) []ssa.Value {
+	f := pa.Parent()
+	if f == nil || f.Parent() != nil || (f.Object() != nil && f.Object().Exported()) || !p.staticOnly(f, nil) {
+		return nil
+	}
+	idx := -1
+	for i, q := range f.Params {
+		if q == pa {
+			idx = i
+		}
+	}
+	node := p.CG.Nodes[f]
+	if idx < 0 || node == nil || len(node.In) == 0 {
+		return nil
+	}
+	var out []ssa.Value
+	for _, edge := range node.In {
+		if !p.InPkg(edge.Caller.Func) {
+			return nil
+		}
+		args := callArgs(edge.Site.Common())
+		if idx >= len(args) {
+			return nil
+		}
+		out = append(out, args[idx])
+	}
+	return out
+}
